@@ -533,7 +533,15 @@ pub fn run(ctx: &Ctx) -> Report {
     // (e') folded form bodies with raw special characters (byte-order mark, zero-width marks, NUL, line ends):
     //      they are bytes of the first / last name or value like any other
     {
-        let bodies = super::c12::special_form_bodies();
+        let mut bodies: Vec<(String, Vec<u8>)> = super::c12::special_form_bodies().into_iter().map(|(l, b)| (l.to_string(), b)).collect();
+        // large bodies that are almost entirely empty segments: the same two pairs however many '&' separate or
+        // surround them (sizes around 2^16, 3 x 65534, 2^17, 2^18, 2^19 and 2^20)
+        for n in [65_000usize, 65_536, 131_072, 196_590, 196_602, 196_603, 200_001, 262_144, 524_288, 1_048_577] {
+            let amps = vec![b'&'; n];
+            bodies.push((format!("two pairs separated by {} '&'", n), [&b"Action=ListUsers"[..], &amps, b"Version=2010-05-08"].concat()));
+            bodies.push((format!("{} '&' before two pairs", n), [&amps[..], b"Action=ListUsers&Version=2010-05-08"].concat()));
+            bodies.push((format!("two pairs followed by {} '&'", n), [&b"Action=ListUsers&Version=2010-05-08"[..], &amps].concat()));
+        }
         let n_s = bodies.len() as u64 * 2;
         let part = par_sweep(n_s, |i, st| {
             let (label, body) = &bodies[(i / 2) as usize];
@@ -611,7 +619,7 @@ pub fn run(ctx: &Ctx) -> Report {
     Report {
         stats: st,
         rule: format!(
-            "(a) every ordered list of 0..={} parameters over {} names x {} values (all permutations included), compared with the reference canonical string computed from the logical multiset; (b) every list of <= {} parameters in every combination of {} per-element spellings (canonical, lower-case hex, needless escape, '+' for space, everything escaped) plus '&&'/leading/trailing '&' at every gap and omitted '='; (c) every byte 0..255 as %XX in both hex cases and every literal char < U+0800 in a name and in a value, every two-character escape over ASCII^2, malformed escapes at every position of three templates, '%' followed by multi-byte characters; 128 queries of 21..257 parameters over 1, 2, 3 or 8 repeated names in 4 arrival orders, each canonicalised 16 times through fresh maps; (d) iteration-order exhaustion of the crate's own HashMap for {} queries on worker and fresh OS threads, digests from {} fresh processes; (e) end-to-end acceptance of reference-signed requests for every list of <= 2 parameters on both carriers, all in the URL and with the last / all pairs in a folded form body (the same pair may then stand in both places), and 12 folded form bodies with a raw byte-order mark, zero-width marks, NUL or line ends; (f) every ordered pair over 58 related query strings (prefixes / extensions, case, escape and separator variants, 100- and 70-parameter strings differing only at the end, malformed ones) evaluated back to back on one thread, each judged alone. states = distinct canonical strings; non-trivial = input differs from its canonical form",
+            "(a) every ordered list of 0..={} parameters over {} names x {} values (all permutations included), compared with the reference canonical string computed from the logical multiset; (b) every list of <= {} parameters in every combination of {} per-element spellings (canonical, lower-case hex, needless escape, '+' for space, everything escaped) plus '&&'/leading/trailing '&' at every gap and omitted '='; (c) every byte 0..255 as %XX in both hex cases and every literal char < U+0800 in a name and in a value, every two-character escape over ASCII^2, malformed escapes at every position of three templates, '%' followed by multi-byte characters; 128 queries of 21..257 parameters over 1, 2, 3 or 8 repeated names in 4 arrival orders, each canonicalised 16 times through fresh maps; (d) iteration-order exhaustion of the crate's own HashMap for {} queries on worker and fresh OS threads, digests from {} fresh processes; (e) end-to-end acceptance of reference-signed requests for every list of <= 2 parameters on both carriers, all in the URL and with the last / all pairs in a folded form body (the same pair may then stand in both places), and 12 folded form bodies with a raw byte-order mark, zero-width marks, NUL or line ends, and 30 folded form bodies of 65 000 .. 1 048 577 bytes that are two pairs and otherwise empty segments ('&' runs between, before and after them); (f) every ordered pair over 58 related query strings (prefixes / extensions, case, escape and separator variants, 100- and 70-parameter strings differing only at the end, malformed ones) evaluated back to back on one thread, each judged alone. states = distinct canonical strings; non-trivial = input differs from its canonical form",
             max_len, NAMES.len(), VALUES.len(), resp_len, NVARIANTS, order_queries.len(), nproc
         ),
         bounds: json!({"max_params": max_len, "respelled_params": resp_len, "names": NAMES.len(), "values": VALUES.len()}),
